@@ -51,6 +51,7 @@ func runC13(c *core.Ctx) {
 	c.Rule("R4", "cache keys are complete, agree between getter and setter, and callers pass the request's own arguments", 8)
 	c.Rule("R5", "PartitionRing immutable after construction; fresh cache; watcher swaps under lock", 3)
 	c.Rule("R6", "look-back cache validity: the upper bound considers every timestamp the shard walk compares with the threshold; the lower bound is the window start", 4)
+	c.Rule("R10", "every element-wise list comparison of package ring visits every index: the equality shortcut compares all tokens (shared with C05.R13)", 2)
 	pkg := c.Prog.Pkg("ring")
 	if pkg == nil {
 		c.Miss("R1", "pkg=ring", "not loaded")
@@ -73,6 +74,7 @@ func runC13(c *core.Ctx) {
 	c05Snapshot(c, pkg, "R9")
 	c13ImmutableIndex(c, pkg, "R7")
 	c13RefreshAll(c, pkg, "R8")
+	pairwiseLoopsAs(c, pkg, "R10", 2)
 }
 
 // c13Classify extracts the class of every field from RingCompare / setInstanceIDs.
